@@ -29,6 +29,22 @@ DOCUMENTED_CTOR_DEFAULTS = {
     "fast_computations": {"covar_root_decomposition": "True", "log_prob": "True", "solves": "True"},
     "linalg_dtypes": {"default": "torch.double"},
 }
+# Parameters for which an omitted argument / `None` is DOCUMENTED to mean "keep the value that is visible where the block
+# is entered" (the per-dtype settings: a block names a SUBSET of the three fields, the others keep the enclosing value).
+# This is the specification side: the generated `kept_*` theorems state it for the class description translated from the
+# source (whose constructor's defaulting expression `x if x is not None else <orig>` is translated, not assumed), and
+# `keep_params_default_none` (Props/C20.lean) states that the declared default of each of them is `None`.
+NONE_MEANS_KEEP = ("float_value", "double_value", "half_value")
+# Composite settings (no fields of their own; they enter member managers): constructor parameter -> (member class,
+# observer of the member that must show the argument inside the block).  `fallback`: parameter whose value an omitted /
+# None argument takes (linalg_dtypes: `symeig` / `cholesky` default to `default`).
+COMPOSITE_OBS = {
+    "fast_computations": {"covar_root_decomposition": ("_fast_covar_root_decomposition", "on()", None),
+                          "log_prob": ("_fast_log_prob", "on()", None),
+                          "solves": ("_fast_solves", "on()", None)},
+    "linalg_dtypes": {"symeig": ("_linalg_dtype_symeig", "value()", "default"),
+                      "cholesky": ("_linalg_dtype_cholesky", "value()", "default")},
+}
 # observer -> constructor parameter that it must show inside the block
 OBS_PARAM = {"on()": "state", "value()": "value", "value(torch.float)": "float_value",
              "value(torch.double)": "double_value", "value(torch.half)": "half_value",
@@ -603,6 +619,16 @@ class Translator:
                     raise TranslateError(f"exported name {name} is not a class")
                 d = self.ensure_class(*r)
                 exported.append(d["name"])
+            # public settings classes DEFINED in the file but missing from `__all__` (min_fixed_noise): still reachable
+            # as `gpytorch.settings.<name>` and used by the library, hence part of the model
+            for (cf, cname), cd in self.src.classes.items():
+                if cf != f or cname.startswith("_") or cname in exported:
+                    continue
+                chain = self.src.mro(cf, cd)
+                if find_method(chain, 0, "__enter__") is None or find_method(chain, 0, "__exit__") is None:
+                    continue
+                d = self.ensure_class(cf, cd)
+                exported.append(d["name"])
         names = [self.descs[k]["name"] for k in self.order]
         if len(set(names)) != len(names):
             raise TranslateError("two translated classes share a name")
@@ -675,6 +701,14 @@ class Translator:
                 ctor.append(f"  ({self.T.c(d['name'])}, {self.T.f(p_)}, {self.lean_val(v_)})")
         L.append("/-- (class, constructor parameter, documented default) — from the hand-written table in the translator -/")
         L.append("def documentedCtorDefaults : List (Nat × Nat × Val) := [\n" + ",\n".join(ctor) + "]\n")
+        keep = []
+        for k in self.order:
+            d = self.descs[k]
+            if [p for p, _ in d["params"]] == list(NONE_MEANS_KEEP):
+                for p_ in NONE_MEANS_KEEP:
+                    keep.append(f"({self.T.c(d['name'])}, {self.T.f(p_)})")
+        L.append("/-- (class, constructor parameter) for which `None` / omitted is documented to mean: keep the enclosing value -/")
+        L.append("def keepParams : List (Nat × Nat) := [" + ", ".join(keep) + "]\n")
         L.append("def clsNames : List String := [" + ", ".join(q(s) for s in self.T.cls) + "]")
         L.append("def fldNames : List String := [" + ", ".join(q(s) for s in self.T.fld) + "]")
         L.append("def atomNames : List String := [" + ", ".join(q(s) for s in self.T.atom) + "]")
@@ -733,6 +767,36 @@ class Translator:
                          f"    (enteredStore c_{n} args σ).map (fun σ' => Expr.eval ⟨σ', fun _ => none, fun _ => none, false⟩ {self.lexpr(e)})\n"
                          f"      = some (args {self.T.f(pn)}) := by\n"
                          f"  settings_entered c_{n}")
+            # fields NOT named by the block keep the enclosing value (per-dtype settings: None = keep)
+            if pnames == list(NONE_MEANS_KEEP):
+                for oname, e in d["observers"].items():
+                    pn = OBS_PARAM.get(oname)
+                    if pn is None or pn not in pnames:
+                        continue
+                    tname = "kept_" + n + "_" + re.sub(r"\W+", "_", oname).strip("_")
+                    ev = lambda st: f"Expr.eval ⟨{st}, fun _ => none, fun _ => none, false⟩ {self.lexpr(e)}"
+                    L.append(f"theorem {tname} (σ : Store) (args : Frame) (_h : args {self.T.f(pn)} = none) :\n"
+                             f"    (enteredStore c_{n} args σ).map (fun σ' => {ev(chr(963) + chr(39))})\n"
+                             f"      = some ({ev(chr(963))}) := by\n"
+                             f"  settings_kept c_{n}")
+            # composite settings: the member's observer shows the argument (or the documented fallback parameter)
+            for pn, (mname, moname, fallback) in COMPOSITE_OBS.get(n, {}).items():
+                if pn not in pnames:
+                    raise TranslateError(f"composite setting {n} has no constructor parameter {pn}")
+                mk = [k2 for k2 in self.order if self.descs[k2]["name"] == mname]
+                if not mk or moname not in self.descs[mk[0]]["observers"]:
+                    raise TranslateError(f"composite setting {n}: member {mname}.{moname} not translated")
+                me = self.descs[mk[0]]["observers"][moname]
+                tname = "entered_" + n + "_" + pn
+                lhs = (f"(enteredStore c_{n} args σ).map (fun σ' => Expr.eval ⟨σ', fun _ => none, fun _ => none, false⟩ "
+                       f"{self.lexpr(me)})")
+                if fallback is None:
+                    L.append(f"theorem {tname} (σ : Store) (args : Frame) (_h : (args {self.T.f(pn)}).isSome = true) :\n"
+                             f"    {lhs}\n      = some (args {self.T.f(pn)}) := by\n  settings_entered c_{n}")
+                else:
+                    L.append(f"theorem {tname} (σ : Store) (args : Frame) :\n    {lhs}\n"
+                             f"      = some (if (args {self.T.f(pn)}).isSome then args {self.T.f(pn)} else args {self.T.f(fallback)}) := by\n"
+                             f"  settings_entered c_{n}")
         L.append("\nend Gen.Settings")
         return "\n".join(L) + "\n"
 
